@@ -8,6 +8,7 @@ from framework import REPO, ROOT
 TIE = ["Nsq.Tie.AdminAgg"]
 PROPS = ["Nsq.Props.C18"]
 STREAMS = [("getv1", "^TestVerifE7GetV1$"), ("latency", "^TestVerifE7Latency$"), ("less", "^TestVerifE7Less$"),
+           ("add", "^TestVerifE7Add$"),
            ("views", "^TestVerifE7Views$"),
            ("malformed", "^TestVerifE7Malformed$")]
 
@@ -112,6 +113,14 @@ def parse_op(op):
         n["info"] = t.answer(lambda: {"hostname": t.s(), "addr": t.s(), "tcp": t.s(), "version": t.s(), "ver": (t.n(), t.n(), t.n())})
         n["stats"] = t.answer(lambda: t.counted(lambda: t.nullable("T", lambda: p_topic(t))))
         w["nsqds"][n["addr"]] = n
+    w["per_topic"] = {}
+    if t.i < len(t.t) and t.t[t.i] == "I":
+        t.next()
+        for _ in range(t.n()):
+            lk, topic = t.s(), t.s()
+            lo = t.answer(lambda: t.counted(lambda: t.nullable("P", lambda: p_producer(t))))
+            ch = t.answer(lambda: t.counted(t.s))
+            w["per_topic"].setdefault((lk, topic), (lo, ch))   # the stub serves the first entry of a topic
     return req, w
 
 
@@ -156,7 +165,8 @@ def stage1(req, w):
                 if n["info"] is None:
                     fails += 1
                     continue
-                out.append(n["info"]["addr"])
+                # GetNSQDTopicProducers: an /info answer without broadcast_address is completed from the configured address
+                out.append(a if n["info"]["addr"].startswith(":") else n["info"]["addr"])
         else:
             if n is None or n["info"] is None or n["stats"] is None:
                 fails += 1
@@ -165,10 +175,47 @@ def stage1(req, w):
     return out, fails, fails == len(w["addrs"])
 
 
+def inactive_expected(w):
+    """`/api/topics?inactive=true` by the property's own rule, from the cluster description alone:
+    (status, warn, {topic: channels}). nsqlookupd mode: the topics no responding nsqlookupd lists a producer for, each
+    with the union of the channels the responding nsqlookupds report; every stage (the topic lists, and for every topic
+    the /lookup answers and - for a topic without producers - the /channels answers) is 502 when nobody answers it and
+    a warning when somebody does not. Direct mode: the empty map (every topic of an nsqd is live there)."""
+    if not w["lookupds"]:
+        answers = [stats_of(w, a, "") for a in w["addrs"]]
+        fails = sum(1 for a in answers if a is None)
+        return (502, None, None) if fails == len(answers) else (200, fails > 0, {})
+    tops = [l["topics"] for l in w["lookupds"]]
+    fails = sum(1 for a in tops if a is None)
+    if fails == len(tops):
+        return 502, None, None
+    warn, out = fails > 0, {}
+    for t in sorted(set(x for a in tops if a is not None for x in a)):
+        look, chans = [], []
+        for l in w["lookupds"]:
+            lo, ch = w["per_topic"].get((l["addr"], t), (l["lookup"], []))
+            look.append(lo)
+            chans.append(ch)
+        lf = sum(1 for a in look if a is None)
+        if lf == len(look):
+            return 502, None, None
+        warn = warn or lf > 0
+        if any(p is not None for a in look if a is not None for p in a):
+            continue
+        cf = sum(1 for a in chans if a is None)
+        if cf == len(chans):
+            return 502, None, None
+        warn = warn or cf > 0
+        out[t] = sorted(set(c for a in chans if a is not None for c in a))
+    return 200, warn, out
+
+
 def expected_status(req, w):
     """(status set allowed, warn or None) by the property's own rule: 502 iff nothing answered,
     200 with a warning iff something but not everything failed."""
     kind = req["kind"]
+    if kind == "inactive":
+        return inactive_expected(w)[:2]
     if kind == "topics":
         if w["lookupds"]:
             answers = [l["topics"] for l in w["lookupds"]]
@@ -218,8 +265,104 @@ def w64(x):
     return y
 
 
+CS13 = ["depth", "memDepth", "backend", "inflight", "deferred", "requeue", "timeout", "msg", "delivery", "zone", "region",
+        "global", "clientCount"]
+CS8 = [0, 1, 2, 7, 8, 9, 10, 11]     # positions of the topic counters inside the 13-field rendering
+
+
+def add_fails(op, impl):
+    """Stream `add`: the real TopicStats.Add / ChannelStats.Add folded over reports given in the op line; every sum,
+    the or-ed paused flag, the node list, the client multiset and the merged channel list are recomputed here."""
+    t = Toks(op.split()[1:])
+    kind, name = t.next(), t.s()
+
+    def chan():
+        c = {"node": t.s(), "host": t.s(), "topic": t.s(), "name": t.s(), "paused": t.next() == "1", "e2e": t.next() == "1"}
+        c["cnt"] = [t.n() for _ in range(13)]
+        c["clients"] = ["%s~%s~%s" % (t.s() or "-", t.s() or "-", c["node"] or "-") for _ in range(t.n())]
+        return c
+
+    def topic():
+        x = {"node": t.s(), "host": t.s(), "name": t.s(), "paused": t.next() == "1", "e2e": t.next() == "1"}
+        x["cnt"] = [t.n() for _ in range(8)]
+        x["channels"] = [chan() for _ in range(t.n())]
+        return x
+
+    reports = [topic() if kind == "topic" else chan() for _ in range(t.n())]
+    if impl.startswith("panic") or impl.startswith("marshal-error"):
+        return "%s.Add over %d report(s): %s" % ("TopicStats" if kind == "topic" else "ChannelStats", len(reports), impl[:160])
+    a = impl.split(" ", 2)
+    if len(a) < 3 or a[0] != "200":
+        return "unreadable answer %r" % impl[:160]
+    body = a[2]
+
+    def sums(rows, width):
+        return [w64(sum(r[i] for r in rows)) for i in range(width)]
+
+    if kind == "channel":
+        m = re.match(r"C/([^/]*)/([^/]*)/([^/]*)/([-0-9,]+)/([01])/([^/]*)/(.*)$", body)
+        if not m:
+            return "unreadable aggregate %r" % body[:120]
+        got = [int(x) for x in m.group(4).split(",")]
+        want = sums([r["cnt"] for r in reports], 13)
+        if got != want:
+            bad = [CS13[i] for i in range(13) if got[i] != want[i]]
+            return "ChannelStats.Add: fields %s are %s; the sums over the reports are %s" % (
+                bad, [got[CS13.index(b)] for b in bad], [want[CS13.index(b)] for b in bad])
+        if (m.group(5) == "1") != any(r["paused"] for r in reports):
+            return "ChannelStats.Add: paused=%s but the reports say %s" % (m.group(5), [r["paused"] for r in reports])
+        gotc = [] if m.group(6) == "-" else m.group(6).split("+")
+        if sorted(gotc) != sorted(c for r in reports for c in r["clients"]):
+            return "ChannelStats.Add: clients %s; the reports hold %s" % (sorted(gotc), sorted(c for r in reports for c in r["clients"]))
+        nodes = [] if m.group(7) == "-" else m.group(7).split("+")
+        wantn = sorted("%s~%s~%s~%s" % (r["node"] or "-", r["host"] or "-", ",".join(str(x) for x in r["cnt"]), "1" if r["paused"] else "0")
+                       for r in reports)
+        if sorted(nodes) != wantn:
+            return "ChannelStats.Add: the node list is not the list of the reports (%d entries for %d reports)" % (len(nodes), len(reports))
+        if (m.group(2) == "*") != bool(reports):
+            return "ChannelStats.Add: node is %r after %d Add(s)" % (m.group(2), len(reports))
+        return None
+    m = re.match(r"T/[^/]*/([-0-9,]+)/([01]) N\[([^\]]*)\] C\[(.*)\]$", body)
+    if not m:
+        return "unreadable aggregate %r" % body[:120]
+    got = [int(x) for x in m.group(1).split(",")]
+    want = sums([r["cnt"] for r in reports], 8)
+    if [got[i] for i in CS8] != want:
+        return "TopicStats.Add: counters %s; the sums over the reports are %s" % ([got[i] for i in CS8], want)
+    if (m.group(2) == "1") != any(r["paused"] for r in reports):
+        return "TopicStats.Add: paused=%s but the reports say %s" % (m.group(2), [r["paused"] for r in reports])
+    nodes = [] if m.group(3) == "-" else m.group(3).split(";")
+    if len(nodes) != len(reports):
+        return "TopicStats.Add: %d node entries for %d reports" % (len(nodes), len(reports))
+    entries = [] if m.group(4) == "-" else m.group(4).split(";")
+    seen = {}
+    for e in entries:
+        f = e.split("/")
+        seen.setdefault("" if f[0] == "-" else f[0], []).append(f)
+    by_name = {}
+    for r in reports:
+        for c in r["channels"]:
+            by_name.setdefault(c["name"], []).append(c)
+    if sorted(seen) != sorted(by_name) or any(len(v) != 1 for v in seen.values()):
+        return "TopicStats.Add: merged channels %s; the reports hold %s" % (sorted((k, len(v)) for k, v in seen.items()), sorted(by_name))
+    for nme, cs in by_name.items():
+        f = seen[nme][0]
+        if [int(x) for x in f[2].split(",")] != sums([c["cnt"] for c in cs], 13):
+            return "TopicStats.Add: channel %r has %s; the sums over its %d report(s) are %s" % (nme, f[2], len(cs), sums([c["cnt"] for c in cs], 13))
+        if (f[3] == "1") != any(c["paused"] for c in cs):
+            return "TopicStats.Add: channel %r paused=%s" % (nme, f[3])
+        gotc = [] if f[4] == "-" else f[4].split("+")
+        if sorted(gotc) != sorted(k for c in cs for k in c["clients"]):
+            return "TopicStats.Add: channel %r lists clients %s; its reports hold %s" % (nme, sorted(gotc), sorted(k for c in cs for k in c["clients"]))
+        if int(f[5]) != len(cs) - 1:
+            return "TopicStats.Add: channel %r: %s node entries merged into the first report; %d reports exist" % (nme, f[5], len(cs))
+    return None
+
+
 def property_fails_on(op, impl):
     """Evaluate C18 on one case and the implementation's own answer (independent of the Lean model)."""
+    if op.startswith("add "):
+        return add_fails(op, impl)
     if op.startswith("getv1 "):
         # the request helper: a normal answer or the one allowed upgrade succeeds; everything else is ONE failed
         # answer after at most one request per port
@@ -303,6 +446,19 @@ def property_fails_on(op, impl):
         return "%s view: warning %s but %s upstream answer(s) failed" % (req["kind"], a[1], "some" if warn else "no")
     body = a[2]
     kind = req["kind"]
+    if kind == "inactive":
+        m = re.match(r"I\[(.*)\]$", body)
+        if not m:
+            return "unreadable inactive-topics view %r" % body[:120]
+        got = {}
+        for e in ([] if m.group(1) == "-" else m.group(1).split(";")):
+            k, v = e.rsplit("=", 1)
+            got["" if k == "-" else k] = [] if v == "-" else [("" if c == "-" else c) for c in v.split("+")]
+        want = inactive_expected(w)[2]
+        if got != want:
+            bad = sorted(k for k in set(got) | set(want) if got.get(k) != want.get(k))[:3]
+            return "inactive-topics view shows %s; by what the responding nsqlookupds say it is %s" % (
+                dict((k, got.get(k)) for k in bad), dict((k, want.get(k)) for k in bad))
     if kind == "topics":
         if w["lookupds"]:
             names = set(t for l in w["lookupds"] if l["topics"] is not None for t in l["topics"])
@@ -460,6 +616,20 @@ def topic_channels_fail(req, w, prods, body):
     return None
 
 
+def inactive_drops_errors(op, impl):
+    """The known shape of the `?inactive=true` defect: a 200 without warning (or a 200 instead of the 502) while one of
+    the per-topic /lookup or /channels answers failed - the handler throws those two errors away."""
+    try:
+        req, w = parse_op(op)
+    except Exception:
+        return False
+    if req["kind"] != "inactive" or not impl.startswith("200 "):
+        return False
+    exp, warn, _ = inactive_expected(w)
+    failed = any(lo is None or ch is None for lo, ch in w["per_topic"].values()) or any(l["lookup"] is None for l in w["lookupds"])
+    return failed and (exp == 502 or (warn and impl.split()[1] == "0"))
+
+
 def crash_key(out):
     """Normalised call site of a process-fatal panic from the Go trace."""
     m = re.search(r"panic: ([^\n]*)", out)
@@ -565,8 +735,14 @@ def run(ctx):
         "Go language semantics of int64 +, -, += (two's complement wrap-around) — the model's wrap64",
         "latency aggregates (E2eProcessingLatencyAggregate.UnmarshalJSON / Add): only the SHAPE of the percentiles array is "
         "modelled and compared (Model/Latency, stream `latency`); the float values are not (open finding view:latency-overflow-500)",
-        "view_no_panic speaks about Fixes.all = /repo + fixes/F53 + fixes/F54; until those are committed the two defects are "
-        "open known findings replayed on every run",
+        "the model the driver runs is Fixes.all = /repo (F53, F54 are committed: 905ac51, 786fd8f) + fixes/F58 (`?inactive=true` "
+        "reports the errors of its per-topic fetches); until F58 is committed the defect is the open known finding "
+        "view:inactive-drops-errors (its cases are judged by the oracle and excluded from the model/impl comparison)",
+        "counter_view_from_upstreams states the counter map relative to the channel map of GetNSQDStats (itself described by "
+        "channels_merge over the upstreams' answers); that two different (topic, channel) pairs never share a key "
+        "`topic:channel` (names without ':') is not proved and not needed for the statement as given",
+        "/info without broadcast_address is generated together with a missing http_port only (address ':0'); hostnames of "
+        "configured nsqds are 127.0.0.1 in the harness (Nsqd.host)",
         "sort.Sort returns a sorted permutation when Less is a strict weak order (library contract; order_by_host proves the "
         "by-hostname comparators are, order_clients_by_topology that ClientStatsByNodeTopology.Less is not)",
         "the per-node channel lists nested inside /api/topics/:t `nodes[]` are not compared (they alias the merged channel objects)",
@@ -575,7 +751,11 @@ def run(ctx):
                 "nodes, zero/small/huge counters, clients with/without optional members, duplicate names, version skew) x six views; "
                 "random failing answers in six flavours (500, 404, invalid JSON, wrong shape, out-of-range number, closed "
                 "connection); every subset of failing answers for a 2+2 cluster in both modes; a separate stream of structurally "
-                "inconsistent answers (short/long tombstones, null array elements, missing latency member, absent channel); "
+                "inconsistent answers (short/long tombstones, null array elements, missing latency member, absent channel), each also "
+                "next to a failing peer; `?inactive=true` in both modes with per-topic /lookup and /channels answers failing (random "
+                "and every subset for two nsqlookupds); negative counters; /info without broadcast_address / hostname in direct "
+                "mode; stream `add`: the real TopicStats.Add / ChannelStats.Add on random report sequences built as Go values "
+                "(nil/empty sub-slices, counters anywhere in int64, missing latency) against Counters.add / ChanAgg.add; "
                 "a case is distinct by its op line, non-trivial when the answer is a 200 with content; oracle: property_fails_on "
                 "(status/warning rule, union of topics, depth/message/backend sums) and process liveness")
     ctx.gen("e7_agg")
@@ -644,7 +824,7 @@ def run(ctx):
             kinds = {}
             for o, i in zip(ops, impl):
                 ctx.count_case(o, nontrivial=(i.startswith("200 ") and not i.endswith(" -")) or o.startswith("getv1")
-                               or o.startswith("lat") or o.startswith("less "))
+                               or o.startswith("lat") or o.startswith("less ") or o.startswith("add "))
                 k = o.split()[1] + ":" + i.split()[0]
                 kinds[k] = kinds.get(k, 0) + 1
             ctx.corr.setdefault("outcomes", {})[name] = kinds
@@ -663,10 +843,14 @@ def run(ctx):
                         key = "view:latency-overflow-500"
                     if o.startswith("less "):
                         key = "order:comparator:" + o.split()[1]
+                    if o.startswith("add "):
+                        key = "add:" + o.split()[1]
                     if o.startswith("lat "):
                         key = "crash:null-percentile" if " panic decode " in " " + i + " " and "nil map" in i else "latency:" + i[:60]
                     if "no producer is known" in bad:
                         key = "view:502-without-producers"
+                    if o.startswith("view inactive ") and inactive_drops_errors(o, i):
+                        key = "view:inactive-drops-errors"
                     if "/j:" in o and not o.startswith("lat "):
                         key = "view:upstream-nodes-member"
                     if key == "view:channel:500":
